@@ -154,10 +154,60 @@ def oracle_inv_grad(ck, filt, J, H, W, o, ri, mask, named, tol, force=None):
     return None
 
 
+def oracle_dot(ck, ff, fi, J, shape, o, ri, named, tol):
+    """sizes at which the Jacobian cannot be assembled: both transforms are linear, so per (batch, channel) slice
+    <T x, g> = <x, grad> for DTCWTForward and <T^-1 P, g> = <P, grad> for DTCWTInverse.  shape = (N, C, H, W)."""
+    from pytorch_wavelets.dtcwt.transform2d import DTCWTForward as MF, DTCWTInverse as MI
+    from ..impl_dtcwt import _module
+    rng = ck.rng
+    desc = 'DTCWT gradient, adjoint identity per slice, J=%d shape=%s layout=(%d,%d) filters=%s' % (J, tuple(shape), o, ri, named)
+    replay = {'oracle': 'dot', 'ff': [arr_json(f) for f in ff], 'fi': [arr_json(f) for f in fi], 'J': J, 'shape': list(shape), 'o': o, 'ri': ri, 'named': named, 'tol': tol}
+    key = np.concatenate([np.ravel(f) for f in ff] + [np.array(shape, dtype=float)])
+
+    def per_slice(t, u, lay):
+        an, ac = (0, 1) if (lay is None or t.dim() != 6) else __import__('harness.props.c07', fromlist=['nc_axes']).nc_axes(t.detach().numpy(), lay)
+        p = (t * u).movedim((an, ac), (0, 1))
+        return p.reshape(p.shape[0], p.shape[1], -1).sum(-1)
+    try:
+        fwd = _module(MF, (ff[0], ff[1]), tuple(ff[2:]), key, None, J=J, o_dim=o, ri_dim=ri)
+        x = T(gen.int_tensor(rng, tuple(shape), 3)).requires_grad_(True)
+        yl, yh = fwd(x)
+        outs = [yl] + list(yh)
+        cots = [T(gen.int_tensor(rng, tuple(t.shape), 3)) for t in outs]
+        (gx,) = torch.autograd.grad(outs, [x], cots)
+        lhs = sum(per_slice(t.detach(), c, (o, ri)) for t, c in zip(outs, cots)); rhs = per_slice(x.detach(), gx, None)
+        e = float((lhs - rhs).abs().max())
+        if not (e <= tol * max(1.0, float(lhs.abs().max()))):
+            n0, c0 = [int(v) for v in torch.nonzero((lhs - rhs).abs() == (lhs - rhs).abs().max())[0]]
+            ck.fail(desc + ': DTCWTForward, slice (%d,%d): <T x, g> = %.12g but <x, grad> = %.12g' % (n0, c0, float(lhs[n0, c0]), float(rhs[n0, c0])), replay); return 'diff'
+        inv = _module(MI, (fi[0], fi[1]), tuple(fi[2:]), key, None, o_dim=o, ri_dim=ri)
+        ps = [T(gen.int_tensor(rng, tuple(t.shape), 3)).requires_grad_(True) for t in outs]
+        y = inv((ps[0], ps[1:]))
+        g = T(gen.int_tensor(rng, tuple(y.shape), 3))
+        gs = torch.autograd.grad([y], ps, [g])
+        lhs = per_slice(y.detach(), g, None); rhs = sum(per_slice(p.detach(), gp, (o, ri)) for p, gp in zip(ps, gs))
+        e = float((lhs - rhs).abs().max())
+        if not (e <= tol * max(1.0, float(lhs.abs().max()))):
+            n0, c0 = [int(v) for v in torch.nonzero((lhs - rhs).abs() == (lhs - rhs).abs().max())[0]]
+            ck.fail(desc + ': DTCWTInverse, slice (%d,%d): <T^-1 P, g> = %.12g but <P, grad> = %.12g' % (n0, c0, float(lhs[n0, c0]), float(rhs[n0, c0])), replay); return 'diff'
+    except Exception as ex:
+        ck.fail(desc + ': raises %s: %s' % (type(ex).__name__, str(ex)[:120]), replay); return 'raise'
+    ck.oracle_ok(('dot', J, tuple(shape), o, ri, named), group='adjoint-identity', sample={'what': desc})
+    return None
+
+
 def oracle(ck, extended):
     rng = ck.rng
     q = ck.tier == 'quick'
     pairs = [(b, s) for b in OD.BIORTS for s in OD.QSHIFTS]
+    # sizes above every blocking / tiling / chunking threshold (gen.scale_shapes_2d): the adjoint identity per slice for both
+    # modules, every level-1 family in turn, several layouts
+    for k, shp in enumerate(gen.scale_shapes_2d(ck.tier)):
+        if q and k % 2 and shp[0] * shp[1] == 1:
+            continue
+        b, s = OD.BIORTS[k % len(OD.BIORTS)], OD.QSHIFTS[k % len(OD.QSHIFTS)]
+        o, ri = (2, -1) if k % 3 else LAYOUTS[(k * 7) % len(LAYOUTS)]
+        rt.guard(ck, oracle_dot, ck, table_filters(b, s), table_filters(b, s, True), 2 + k % 2, shp, o, ri, '%s/%s' % (b, s), 1e-9)
     # covering cases: modules whose state was taken over from another instance (constructed with other filters of the same
     # lengths, then load_state_dict + exact dtype round trip; or the deferred meta-device construction): gradients must
     # follow the CURRENT state
@@ -240,6 +290,13 @@ def replay(ck, path):
     if not f:
         print('replay file names no failing input: %s' % d.get('broken_obligations'))
         return 1
+    if f['oracle'] == 'dot':
+        oracle_dot(ck, [arr_from(a) for a in f['ff']], [arr_from(a) for a in f['fi']], f['J'], tuple(f['shape']), f['o'], f['ri'], f['named'], f['tol'])
+        for fl in ck.failures:
+            print('REPLAY-FAILS: ' + fl['desc'])
+        if not ck.failures:
+            print('REPLAY-PASSES')
+        return 1 if ck.failures else 0
     filt = [arr_from(a) for a in f['filt']]
     if f['oracle'] == 'fwd_grad':
         oracle_fwd_grad(ck, filt, f['J'], tuple(f['shape']), f['o'], f['ri'], f['skm'], f['inm'], f['named'], f['tol'], f.get('force'), f.get('chan', 1))
